@@ -10,7 +10,7 @@ echo "|---|---|---|---|" >> $out.tmp
 for d in seeded/C*-*; do
   sid=$(basename $d); prop=${sid%%-*}
   [ -n "$1" ] && [ "$1" != "$prop" ] && [ "$1" != "$sid" ] && { grep "^| $sid " $out >> $out.tmp 2>/dev/null; continue; }
-  res=$(timeout 2400 tools/try_mutant.sh $d/patch.diff $prop 2>&1); trc=$?
+  res=$(timeout 2400 tools/try_mutant.sh /verif/$d/patch.diff $prop 2>&1); trc=$?
   keys=$(echo "$res" | grep VIOLATION | sed 's/.*# //' | sed 's/ (.*//' | sort -u | head -6 | tr '\n' ';')
   if echo "$res" | grep -q "PATCH DOES NOT APPLY"; then det="patch no longer applies"; elif [ -n "$keys" ]; then det=yes; elif [ $trc -eq 124 ]; then det="NO (check did not finish in 40 min)"; elif echo "$res" | grep -q HARNESS; then det="harness error (exit 2)"; else det=NO; fi
   echo "| $sid | $prop | $det | $keys |" >> $out.tmp
